@@ -268,6 +268,40 @@ def r18c(ctx, rep):
                  "interned symbols eq?", [fn.span])
 
 
+def r18g(ctx, rep, rule="R18g"):
+    facts = ctx["facts"]
+    rep.rule(rule, "what a builtin returns is interned before it becomes a value: in run_one, after each call of BuiltInProc::eval "
+             "(the CALL and the TCALL arm), every path to the end of the instruction passes Heap::maybe_put — the interning "
+             "arm for symbols — unless the result is already a heap pointer (the Ptr edge of the match on the result). "
+             "string->symbol returns an inline VCell::Symbol; stored unboxed it is not eq? to the interned symbol of the "
+             "same name.")
+    f = need(rep, rule, facts, RUN_ONE)
+    if f is None:
+        return
+    sites = [(bb, t) for bb, t in f.calls() if (callee(t) or "").endswith("BuiltInProc::eval")]
+    if len(sites) < 2:
+        rep.anchor_lost(rule, "BuiltInProc::eval call sites in run_one (CALL and TCALL arms)")
+        return
+    puts = {bb for bb, t in f.calls() if callee(t) == HEAP + "maybe_put"}
+    rets = set(f.return_blocks())
+    for i, (bb, t) in enumerate(sites):
+        if t.get("target") is None:
+            continue
+        # the Ptr edge: a switch on the discriminant of a VCell derived from the result, arm `Ptr`
+        ptr_targets = set()
+        for sw in disc_switches(facts, f, VCELL):
+            if "Ptr" in sw["arms"] and f.dominates(t["target"], sw["bb"]) and len(sw["arms"]) <= 2:
+                ptr_targets.add(sw["arms"]["Ptr"])
+        # the `?` on the result: the Err edge returns without producing a value
+        err_blocks = {b2 for b2, t2 in f.calls() if "FromResidual" in (t2.get("fnargs") or "") and f.dominates(t["target"], b2)}
+        reach = f.reach_from(t["target"], avoid=puts | ptr_targets | err_blocks)
+        ok = not (reach & rets)
+        (rep.ok if ok else rep.fail)(rule, "%s|run_one|builtin-result#%d" % (rule, i + 1),
+                                     "the result of the builtin is passed through Heap::maybe_put (or is already a Ptr) before the instruction ends" if ok else
+                                     "a builtin's result can become %acc without passing Heap::maybe_put: an inline symbol returned by "
+                                     "string->symbol stays un-interned on that path (a tail call of it is not eq? to the literal)", [t["loc"]])
+
+
 def r18f(ctx, rep, rule="R18f"):
     from .C10 import decode_template, TemplateError
     facts = ctx["facts"]
@@ -315,6 +349,7 @@ def run(ctx, rep):
     r18b2(ctx, rep)
     r18e(ctx, rep)
     r18f(ctx, rep)
+    r18g(ctx, rep)
     r18c(ctx, rep)
     from . import tables
     tables.r18d(ctx, rep)
